@@ -128,7 +128,10 @@ WellFormedVariants == <<
   Variant("EVENT_TOPOLOGY_REMOVED", "EVENT_TOPOLOGY", Mk("EVENT_TOPOLOGY", Ev(S_REMOVED_NODE))),
   Variant("EVENT_STATUS_UP", "EVENT_STATUS", Mk("EVENT_STATUS", Ev2(S_UP))),
   Variant("EVENT_STATUS_DOWN", "EVENT_STATUS", Mk("EVENT_STATUS", Ev(S_DOWN))),
-  Variant("EVENT_SCHEMA", "EVENT_SCHEMA", Mk("EVENT_SCHEMA", SchemaTable)) >>
+  Variant("EVENT_SCHEMA", "EVENT_SCHEMA", Mk("EVENT_SCHEMA", SchemaTable)),
+  Variant("EVENT_TOPOLOGY_MOVED", "EVENT_TOPOLOGY", Mk("EVENT_TOPOLOGY", Ev(S_MOVED_NODE))),
+  Variant("EVENT_STATUS_UP_V6_PORT0", "EVENT_STATUS", Mk("EVENT_STATUS", [change |-> S_UP, addr |-> Addr6, port |-> 0])),
+  Variant("EVENT_SCHEMA_KEYSPACE_DROPPED", "EVENT_SCHEMA", Mk("EVENT_SCHEMA", [SchemaTable EXCEPT !.change = S_DROPPED, !.target = "KEYSPACE", !.name = <<>>])) >>
 
 \* malformed frames at the positions they belong to (same mutations as Gen_Malformed: one
 \* length / count field replaced, or the body cut and the header's length adjusted)
@@ -147,6 +150,57 @@ Malformed == <<
   [n |-> "MAL_ROWS_SHORT", kind |-> "RESULT_ROWS", bytes |-> Replace(Mk("RESULT_ROWS", RowsInt), RowsCountOff(Mk("RESULT_ROWS", RowsInt)), Int32(3)),
    at |-> {"app.query", "app.execute", "ctl.query_local", "ctl.refresh_peers"}] >>
 
+\* ------------------------------------------------------------------ rows of the system tables with ONE column off
+\* What system.local / system.peers answer (the columns the driver reads: host_source.go), a row that
+\* describes a sane node, and for every column in turn: its type replaced by int, its value null, empty,
+\* a single byte 0xFF; plus a native_port column.  These answer the control connection's queries.
+N_peer == <<112, 101, 101, 114>>
+N_data_center == <<100, 97, 116, 97, 95, 99, 101, 110, 116, 101, 114>>
+N_rack == <<114, 97, 99, 107>>
+N_host_id == <<104, 111, 115, 116, 95, 105, 100>>
+N_release_version == <<114, 101, 108, 101, 97, 115, 101, 95, 118, 101, 114, 115, 105, 111, 110>>
+N_rpc_address == <<114, 112, 99, 95, 97, 100, 100, 114, 101, 115, 115>>
+N_tokens == <<116, 111, 107, 101, 110, 115>>
+N_schema_version == <<115, 99, 104, 101, 109, 97, 95, 118, 101, 114, 115, 105, 111, 110>>
+N_broadcast_address == <<98, 114, 111, 97, 100, 99, 97, 115, 116, 95, 97, 100, 100, 114, 101, 115, 115>>
+N_key == <<107, 101, 121>>
+N_partitioner == <<112, 97, 114, 116, 105, 116, 105, 111, 110, 101, 114>>
+N_cluster_name == <<99, 108, 117, 115, 116, 101, 114, 95, 110, 97, 109, 101>>
+N_native_port == <<110, 97, 116, 105, 118, 101, 95, 112, 111, 114, 116>>
+N_system == <<115, 121, 115, 116, 101, 109>>
+N_peers == <<112, 101, 101, 114, 115>>
+N_dc1 == <<100, 99, 49>>
+N_r1 == <<114, 49>>
+N_3_11_4 == <<51, 46, 49, 49, 46, 52>>
+N_local == <<108, 111, 99, 97, 108>>
+N_vf == <<118, 102>>
+N_1000 == <<49, 48, 48, 48>>
+N_Murmur3 == <<111, 114, 103, 46, 97, 112, 97, 99, 104, 101, 46, 99, 97, 115, 115, 97, 110, 100, 114, 97, 46, 100, 104, 116, 46, 77, 117, 114, 109, 117, 114, 51, 80, 97, 114, 116, 105, 116, 105, 111, 110, 101, 114>>
+U16x == <<17, 17, 17, 17, 17, 17, 17, 17, 17, 17, 17, 17, 17, 17, 17, 17>>
+HostUuid == <<0, 0, 0, 0, 0, 0, 0, 0, 0, 0, 0, 0, 0, 0, 0, 2>>
+TokenSet == Int32(1) \o Int32(4) \o N_1000          \* set<varchar> {"1000"}, protocol >= 3 framing
+SysCols == <<
+  [n |-> N_key, t |-> Ty(13), v |-> N_local], [n |-> N_cluster_name, t |-> Ty(13), v |-> N_vf],
+  [n |-> N_peer, t |-> Ty(16), v |-> <<10, 0, 0, 2>>], [n |-> N_data_center, t |-> Ty(13), v |-> N_dc1], [n |-> N_rack, t |-> Ty(13), v |-> N_r1],
+  [n |-> N_host_id, t |-> Ty(12), v |-> HostUuid], [n |-> N_release_version, t |-> Ty(13), v |-> N_3_11_4],
+  [n |-> N_partitioner, t |-> Ty(13), v |-> N_Murmur3], [n |-> N_rpc_address, t |-> Ty(16), v |-> <<10, 0, 0, 2>>],
+  [n |-> N_broadcast_address, t |-> Ty(16), v |-> <<10, 0, 0, 2>>], [n |-> N_tokens, t |-> TySet(Ty(13)), v |-> TokenSet],
+  [n |-> N_schema_version, t |-> Ty(12), v |-> U16x] >>
+SysAlterations == <<"as-int", "null", "empty", "one-byte", "plus-native-port">>
+SysCol(c, k) == CASE k = "as-int" -> [c EXCEPT !.t = TInt, !.v = <<0, 0, 0, 7>>] [] OTHER -> c
+SysCell(c, k) == CASE k = "null" -> CNullOpaque [] k = "empty" -> COpaque(<<>>) [] k = "one-byte" -> COpaque(<<255>>)
+                   [] k = "as-int" -> COpaque(<<0, 0, 0, 7>>) [] OTHER -> COpaque(c.v)
+SysFrame(i, k) ==
+  LET extra == IF k = "plus-native-port" THEN <<[n |-> N_native_port, t |-> TInt, v |-> Int32(i * 1000)]>> ELSE <<>>
+      cs == [j \in 1 .. Len(SysCols) |-> IF j = i /\ k # "plus-native-port" THEN SysCol(SysCols[j], k) ELSE SysCols[j]] \o extra
+      meta == [global |-> TRUE, more |-> FALSE, nometa |-> FALSE, paging |-> <<>>, gks |-> N_system, gtable |-> N_peers,
+               cols |-> [j \in 1 .. Len(cs) |-> [ks |-> N_system, table |-> N_peers, name |-> cs[j].n, type |-> cs[j].t]]]
+      row == [j \in 1 .. Len(cs) |-> IF j = i /\ k # "plus-native-port" THEN SysCell(cs[j], k) ELSE COpaque(cs[j].v)]
+  IN Mk("RESULT_ROWS", [meta |-> meta, rows |-> <<row>>])
+SysPositions == {"ctl.query_local", "ctl.refresh_local", "ctl.refresh_peers"}
+\* (plus-native-port only once per value: i = 1 (port 1000), 2 (2000))
+SysWanted(i, k) == k # "plus-native-port" \/ i <= 2
+
 Kinds == {WellFormedVariants[i].kind : i \in 1 .. Len(WellFormedVariants)}
 
 \* ------------------------------------------------------------------ states
@@ -164,6 +218,9 @@ PNext ==
                 p' = CaseOf(p, WellFormedVariants[i].n, WellFormedVariants[i].kind, WellFormedVariants[i].bytes)
            \/ \E i \in 1 .. Len(Malformed) :
                 p.pos \in Malformed[i].at /\ p' = CaseOf(p, Malformed[i].n, Malformed[i].kind, Malformed[i].bytes)
+           \/ \E i \in 1 .. Len(SysCols), k \in 1 .. Len(SysAlterations) :
+                /\ p.pos \in SysPositions /\ p.cfg = "plain" /\ SysWanted(i, SysAlterations[k])
+                /\ p' = CaseOf(p, "SYSROW_" \o ToString(i) \o "_" \o SysAlterations[k], "RESULT_ROWS", SysFrame(i, SysAlterations[k]))
 
 \* every position is reachable and every (position, kind) pair is generated (checked on the cases by the check)
 EmitCase ==
